@@ -3,6 +3,7 @@
 From Sheens Require Import Spec.Contain Proofs.SndBasics Proofs.SndSpecFacts Proofs.SndArrayFacts
      Proofs.SndMatchSound.
 From Coq Require Import Lia.
+From Sheens Require Import Proofs.BoundMatch.
 
 (** * One unfolding of [match_] *)
 
@@ -20,7 +21,7 @@ Definition match_body (ord : order_oracle) (rec : rec_t) (p f : json) (bs : bind
           | Using r => Ok r
           | NotUsing =>
               match lookup s bs with
-              | Some b => rec b f bs
+              | Some b => bound_match rec b f bs
               | None => Ok [bset s f bs]
               end
           end
@@ -165,7 +166,9 @@ Proof.
   unfold match_body. destruct p as [| x | x | s | xs | kvs]; try reflexivity.
   - destruct (is_var s); [|reflexivity]. destruct (is_anon s); [reflexivity|].
     destruct (inequal f bs s); [|reflexivity].
-    destruct (lookup s bs) as [b|]; [apply Hle | reflexivity].
+    destruct (lookup s bs) as [b|]; [|reflexivity].
+    unfold bound_match. destruct b as [| | |t| |]; try apply Hle.
+    destruct (is_var t); [reflexivity | apply Hle].
   - apply match_arr_mono.
   - destruct f; try reflexivity. apply match_obj_mono.
 Qed.
@@ -473,6 +476,7 @@ Proof.
     + destruct (is_anon s); [discriminate|].
       destruct (inequal f bs s); [|discriminate].
       destruct (lookup s bs) as [b|] eqn:El; [|discriminate].
+      rewrite (bound_match_var_free rec b f bs (proj1 (proj1 (proj2 Hinv) _ _ El))).
       apply Hnf; [exact Hf | exact Hinv|].
       destruct Hinv as [_ Hgb]. destruct (proj1 Hgb _ _ El) as [Hb1 Hb2].
       right. split; [exact Hb1|].
